@@ -928,7 +928,9 @@ def log_call(
     if include_args is not None:
         from inspect import signature
 
-        sig = signature(wrapped_function)
+        # Look at the function's own parameters, like getcallargs() below does,
+        # not those of a function it may wrap (__wrapped__):
+        sig = signature(wrapped_function, follow_wrapped=False)
         if set(include_args) - set(sig.parameters):
             raise ValueError(
                 (
